@@ -41,6 +41,12 @@ define_language! {
 }
 
 thread_local! {
+    /// naming kind 9: do the rules' binder slots and repeated free slots (90..93) also take the names
+    /// of class slots? (set per run)
+    pub static HINT_BINDERS: std::cell::Cell<bool> = std::cell::Cell::new(false);
+}
+
+thread_local! {
     /// class slots of the e-graph at the moment rules are built (naming kind 9 only)
     pub static NAMING_HINT: std::cell::RefCell<Vec<Slot>> = std::cell::RefCell::new(Vec::new());
 }
@@ -107,12 +113,12 @@ impl Naming {
             // class slots ($f0, $f1, ..): a rule may legally mention such a name, and it then denotes
             // the very slot the e-graph uses inside some class; everything else is textual
             9 => {
-                if (94..100).contains(&s) {
+                if (90..100).contains(&s) && (s >= 94 || HINT_BINDERS.with(|h| h.get())) {
                     // a slot that only the right side of a rule mentions: the user read the name of a
                     // class slot off the e-graph (hint set by the executor right before the rules
                     // are built) and spelled it in the rule
                     let hint = NAMING_HINT.with(|h| h.borrow().clone());
-                    match hint.get((s - 94) as usize) {
+                    match hint.get(((s + 6) % 10) as usize) {
                         Some(x) if self.rev.get(x).map(|o| Naming::is_unknown(*o)).unwrap_or(true) => *x,
                         _ => Slot::named(&format!("a{:07}", s)),
                     }
